@@ -110,6 +110,7 @@ pub fn execute(plan: &Plan, entropy: u64) -> RunReport {
         for i in 0..48u32 {
             let mut p = plan.clone();
             p.enumerate = None;
+            p.all_prefixes = false;
             match p.steps.get_mut(s).and_then(|st| st.fail_mut()) {
                 Some(f) => *f = vec![i],
                 None => break,
@@ -144,7 +145,7 @@ pub fn execute(plan: &Plan, entropy: u64) -> RunReport {
 fn run_once(plan: &Plan, entropy: u64, rep: &mut RunReport, prefix: &str) -> Vec<bool> {
     simkit::rt::block_on(entropy, async move {
         let n = RUN_COUNTER.fetch_add(1, Ordering::SeqCst);
-        let root = PathBuf::from(format!("/dev/shm/antsim/{}/services-{n}", std::process::id()));
+        let root = PathBuf::from(format!("/dev/shm/antsim/{:07}/services-{n:09}", std::process::id()));
         let _guard = RunDir(root.clone());
         let _ = std::fs::remove_dir_all(&root);
         if let Err(e) = std::fs::create_dir_all(root.join("downloads")) {
@@ -536,7 +537,8 @@ impl<'a> World<'a> {
         self.rep.fault("external:registry_corrupted");
         self.rep.probe_n("corrupt_registry_load_is_error", errs as u64);
         let _ = std::fs::write(&path, &orig);
-        self.log(format!("#{i} corrupt registry: {} variants, {errs} load errors, {oks} loaded, restored", variants.len()));
+        self.rep.probe_n("corrupt_registry_variant_still_loads", oks as u64);
+        self.log(format!("#{i} corrupt registry: {} variants probed, none panicked, restored", variants.len()));
     }
 
     // ------------------------------------------------------------------------------------------
